@@ -1196,6 +1196,7 @@ def pattern_sub16(context, tree, c0, c1):
 
 
 @arm_isa.pattern("reg", "SUBI8(reg, reg)", size=4)
+@arm_isa.pattern("reg", "SUBU8(reg, reg)", size=4)
 def pattern_sub8(context, tree, c0, c1):
     # TODO: temporary fix this with an 32 bits sub
     d = context.new_reg(ArmRegister)
